@@ -110,7 +110,12 @@ pub fn check_library(ctx: &mut Ctx, src: &str, deep: bool) -> Reached {
     let ntok_guess = src.len() as u64 + 1;
     verif_hooks::reset();
     verif_hooks::set_parse_calls_cap(400 * (ntok_guess + 1) * (ntok_guess + 1) + 100_000);
-    verif_hooks::set_order_check_calls_cap(400 * (ntok_guess + 1) * (ntok_guess + 1) + 100_000);
+    // (at most one visit per pair of definitions is legitimate; a runaway recursion reaches the
+    // cap long before it exhausts the 2 GiB stack)
+    verif_hooks::set_order_check_calls_cap(4 * (ntok_guess + 1) * (ntok_guess + 1) + 10_000);
+    verif_hooks::set_post_parse_calls_cap(400 * (ntok_guess + 1) * (ntok_guess + 1) + 100_000);
+    // tokenizing and parsing always terminate: a worker death there is a violation
+    set_flag(1);
     let r = guard(|| {
         let ts = match tokenize(None, src) {
             Ok(ts) => ts,
@@ -140,9 +145,10 @@ pub fn check_library(ctx: &mut Ctx, src: &str, deep: bool) -> Reached {
     });
     verif_hooks::set_parse_calls_cap(0);
     verif_hooks::set_order_check_calls_cap(0);
+    verif_hooks::set_post_parse_calls_cap(0);
     match r {
         Err(p) => {
-            let key = if p.contains("parse call cap") || p.contains("check call cap") { "parse-work-cap-exceeded".to_owned() } else { format!("panic@{}", panic_site(&p)) };
+            let key = if p.contains("parse call cap") || p.contains("check call cap") || p.contains("pass call cap") { "parse-work-cap-exceeded".to_owned() } else { format!("panic@{}", panic_site(&p)) };
             viol(ctx, &key, &format!("a library stage panicked: {p}"), src.as_bytes());
             Reached::Crashed
         }
